@@ -42,4 +42,11 @@ def classAfter (h : Hier) (s : Site) (c : LoadCtx) (cls r : Nat) : Except Refine
   else if c.isSeed then h.refine cls r 0 0 true
   else .ok r
 
+/-- the class an object gets when it is built from a FULL row fetched for a query over `entity` (`_fetch_objects` → `_parse_row_` →
+    `<class>._get_from_identity_map_`): the two flags are read from the source (`Gen.LoadGuards`) — is the class returned by `_parse_row_`
+    the one used, and does `_parse_row_` take it from `code2cls`.  `hasDiscr`: the entity's tree has a discriminator column. -/
+def rowClass (h : Hier) (entity : Nat) (hasDiscr : Bool) (rowDiscr : Int) : Option Nat :=
+  let parsed := if hasDiscr then (if parseRowUsesCode2cls then h.parseRow rowDiscr else some entity) else some entity
+  if fetchObjectsUsesParsedClass then parsed else some entity
+
 end PonyVerif.Model.SeedLoad
